@@ -220,6 +220,10 @@ def cases(draw):
             init = draw(st.sampled_from(NUM if kind == 'InputNum' else ANY))
         name = f's{i}'
         sources.append({'name': name, 'kind': kind, 'init': init})
+        if kind != 'Counter' and draw(st.integers(0, 5)) == 0:
+            # an output event that fails in a documented non-fatal way (unknown event type) for
+            # falsy values; the caller of put gets the exception, the circuit must stay consistent
+            sources[-1]['badevent'] = True
         types[name] = 'any' if kind == 'InputAny' else 'num'
     ncb = draw(st.integers(1, 8))
     diamond = draw(st.booleans())
@@ -461,13 +465,19 @@ def build(case):
             return blocks[r[1]]
         return r[1]
 
+    if any(s.get('badevent') for s in case['sources']):
+        edzed.Counter('snk')
     for name in case['order']:
         what, d = bydef[name]
         if what == 'src':
             if d['kind'] in ('Counter', 'CounterR'):
                 blocks[name] = edzed.Counter(name, initdef=d['init'])
             else:
-                blocks[name] = edzed.Input(name, initdef=POOL[d['init']])
+                kw = {}
+                if d.get('badevent'):
+                    kw['on_output'] = edzed.Event('snk', edzed.EventCond('inc', 'no_such_event'),
+                                                  efilter=edzed.not_from_undef)
+                blocks[name] = edzed.Input(name, initdef=POOL[d['init']], **kw)
             continue
         if what == 'fb':
             if d['fb']['kind'] == 'Counter':
@@ -520,7 +530,7 @@ def run_circuit(case):
             if sim.init_error is not None:
                 info['init_error'] = repr(circuit.error)
                 return
-            snaps.append({b.name: b.output for b in circuit.getblocks()})
+            snaps.append({b.name: b.output for b in circuit.getblocks() if b.name != 'snk'})
             for burst in case['bursts']:
                 for name, etype, arg in burst:
                     blk = blocks[name]
@@ -530,12 +540,15 @@ def run_circuit(case):
                         else:
                             edzed.ExtEvent(blk, etype).send(amount=arg)
                     else:
-                        edzed.ExtEvent(blk, 'put').send(POOL[arg])
+                        try:
+                            edzed.ExtEvent(blk, 'put').send(POOL[arg])
+                        except edzed.EdzedUnknownEvent:
+                            info['nonfatal'] = info.get('nonfatal', 0) + 1      # from the 'badevent' output event
                 await harness.quiesce(loop)
                 if circuit.error is not None:
                     info['error'] = repr(circuit.error)
                     return
-                snaps.append({b.name: b.output for b in circuit.getblocks()})
+                snaps.append({b.name: b.output for b in circuit.getblocks() if b.name != 'snk'})
             info['inverters'] = sorted(
                 (b.name, tuple(i.name for i in b.iconnections))
                 for b in circuit.getblocks(edzed.Not) if b.name.startswith('_not_'))
@@ -698,5 +711,7 @@ def execute(case):
         res.classes.append('named group')
     if any(len(b) >= 2 for b in case['bursts']):
         res.classes.append('burst with >=2 events')
+    if any(s.get('badevent') for s in case['sources']):
+        res.classes.append('non-fatally failing output event')
     res.outcome = {'cblocks': len(case['cblocks']), 'active_burst': active}
     return res
